@@ -15,7 +15,8 @@ ENGINE = "auto"
 LEAN_MODULES = ["RtoscModel.Props.C19"]
 THEOREMS = ["Rtosc.Auto.emit_in_range_right_type", "Rtosc.Auto.emit_monotone",
             "Rtosc.Auto.default_gain_linear", "Rtosc.Auto.learn_queue_refines",
-            "Rtosc.Auto.learn_order_preserved", "Rtosc.Auto.bound_cc_drives_its_slot"]
+            "Rtosc.Auto.unbound_controller_serves_head", "Rtosc.Auto.learn_order_preserved",
+            "Rtosc.Auto.bound_cc_drives_its_slot"]
 HARNESS = {"src": ["auto.cpp"], "exclude": ["src/cpp/automations.cpp"], "deps": ["common.h"]}
 STATELESS = True          # one op line = one whole history, lines are independent
 RULE = ("one op line = one whole history over a fresh AutomationMgr (2..6 slots x 1..3 sub-automations, 1..40 "
@@ -156,7 +157,7 @@ def rand_offset(rng):
 
 
 def generate(rng, tier, stats):
-    n = 3000 if tier == "quick" else 60000
+    n = 12000 if tier == "quick" else 200000
     stats.update({"ops": {}, "ports": {}, "len_hist": {}, "slots_hist": {}, "oob_index_ops": 0,
                   "nrpn_sequences": 0, "histories_with_clear_while_waiting": 0})
 
